@@ -4,6 +4,7 @@ package main
 // Injected at check time (go test -overlay); never committed to /repo.
 
 import (
+	"errors"
 	"fmt"
 	"io"
 	"log"
@@ -72,6 +73,8 @@ type simReq struct {
 	// connection is dropped, the process goes on); used only for requests the program under test
 	// is known to be unable to evaluate. Every other panic is reported by the simulator.
 	abortOK bool
+	// hangup: the client has gone away when the response is written (every Write fails)
+	hangup bool
 }
 
 type simResp struct {
@@ -114,6 +117,31 @@ func (sv *simServer) do(r simReq) simResp {
 		}
 		return simResp{status: rec.Code, body: rec.Body.String()}
 	}
+	if r.hangup {
+		// the client is gone by the time the response is written: every write fails
+		w := &simGoneWriter{hdr: http.Header{}}
+		sv.handler(w, req)
+		return simResp{status: w.code, body: ""}
+	}
 	sv.handler(rec, req)
 	return simResp{status: rec.Code, body: rec.Body.String()}
+}
+
+// simGoneWriter is the ResponseWriter of a connection whose peer has hung up.
+type simGoneWriter struct {
+	hdr  http.Header
+	code int
+}
+
+func (w *simGoneWriter) Header() http.Header { return w.hdr }
+func (w *simGoneWriter) WriteHeader(code int) {
+	if w.code == 0 {
+		w.code = code
+	}
+}
+func (w *simGoneWriter) Write(b []byte) (int, error) {
+	if w.code == 0 {
+		w.code = 200
+	}
+	return 0, errors.New("write tcp 10.0.0.1:8080->10.2.0.1:1000: write: broken pipe")
 }
